@@ -257,21 +257,25 @@ func (s *RegionSyncer) bindStream(name string, stream ServerStream) {
 }
 
 func (s *RegionSyncer) broadcast(regions *pdpb.SyncRegionResponse) {
-	var failed []string
+	failed := make(map[string]ServerStream)
 	s.mu.RLock()
 	for name, sender := range s.mu.streams {
 		err := sender.Send(regions)
 		if err != nil {
 			log.Error("region syncer send data meet error", errs.ZapError(errs.ErrGRPCSend, err))
-			failed = append(failed, name)
+			failed[name] = sender
 		}
 	}
 	s.mu.RUnlock()
 	if len(failed) > 0 {
 		s.mu.Lock()
-		for _, name := range failed {
-			delete(s.mu.streams, name)
-			log.Info("region syncer delete the stream", zap.String("stream", name))
+		for name, sender := range failed {
+			// The member may have bound a new stream since the send failed:
+			// only remove the stream that failed.
+			if s.mu.streams[name] == sender {
+				delete(s.mu.streams, name)
+				log.Info("region syncer delete the stream", zap.String("stream", name))
+			}
 		}
 		s.mu.Unlock()
 	}
